@@ -53,6 +53,23 @@ def r13_1(ctx, R):
                     pend = pending_assign_blocks(d)
                     wake_ok = any(d.dominates(tgt, w) for w in wakes) and d.must_pass(tgt, d.returns(), [w for w in wakes if d.dominates(tgt, w)])
                     pend_ok = any(d.dominates(tgt, p) for p in pend)
+                    if not (wake_ok and pend_ok):
+                        # a tail shared with another early exit (e.g. `break` on an inconsistent queue): decide on the feasible
+                        # paths that cross the exhaustion edge
+                        try:
+                            ncross, okp = 0, True
+                            for kind_, pth, know in sensitive_paths(d, fl, 2):
+                                for i_ in range(len(pth) - 1):
+                                    if pth[i_] in body and pth[i_ + 1] == tgt and tgt not in body:
+                                        ncross += 1
+                                        rest = pth[i_ + 1:]
+                                        if head in rest or not any(x in wakes for x in rest) or not (kind_ == "return" and any(x in pend for x in rest)):
+                                            okp = False
+                                        break
+                            if ncross and okp:
+                                wake_ok = pend_ok = True
+                        except RuntimeError:
+                            pass
                     ok = counted and wake_ok and pend_ok and hi - lo >= 1
                     det = "range form %d..%d at %s; every polling cycle passes next(): %s; exhaustion edge -> self-wake: %s, Pending: %s" % (
                         lo, hi, d.loc(nbb), counted, wake_ok, pend_ok)
